@@ -80,6 +80,27 @@ class PROP(Prop):
             if mb.spec_rsp_size(rsp) <= 253:
                 cs.append(Case("SRV rtu d%s - - r=%s" % (mb.rtu_frame(3, b"\x11").hex(), mb.show_rsp(rsp)), {"k": "emit_rsp"}))
             cs.append(Case("SRV rtu d%s - - x=%d" % (mb.rtu_frame(3, b"\x11").hex(), rng.randrange(256)), {"k": "emit_rsp"}))
+        # emitted frames after an earlier call left bytes in the write buffer (write error, zero write, abandonment)
+        for _ in range(200 if tier == "quick" else 2000):
+            slave = rng.randrange(256)
+            ops, frames = [], []
+            for i in range(rng.randrange(2, 5)):
+                req = mb.rnd_req(rng, rng.choice(["RC", "RHR", "WSR", "WSC", "MWR", "WMR", "RSI"]))
+                if mb.spec_req_size(req) > 60:
+                    req = ("RHR", 1, 1)
+                fr = mb.rtu_frame(slave, mb.spec_req_pdu(req))
+                frames.append(fr.hex())
+                k = rng.randrange(0, len(fr))
+                mode = rng.choice(["ok", "ok", "werr", "abandon", "zero"]) if i < 3 else "ok"
+                if mode == "ok":
+                    ops.append(cligen.call_op(req, R="e:Other"))
+                elif mode == "werr":
+                    ops.append(cligen.call_op(req, W=("a%d," % k if k else "") + "e:Other"))
+                elif mode == "zero":
+                    ops.append(cligen.call_op(req, W=("a%d," % k if k else "") + "z"))
+                else:
+                    ops.append(cligen.call_op(req, W=("a%d," % k if k else "") + "p", drop="0"))
+            cs.append(Case(cligen.cli_line("rtu", slave, ops), {"k": "emit_hist", "frames": frames}))
         return cs
 
     def srv(self, cs, streams, rng, kind, chunk=True):
@@ -128,6 +149,19 @@ class PROP(Prop):
         if k == "emit_req":
             res, w = cligen.res_and_w(r)
             return None if self.crc_ok(w.hex()) else "emitted request frame has a wrong CRC: %s" % w.hex()[:60]
+        if k == "emit_hist":
+            stream = b"".join(cligen.res_and_w(x)[1] for x in cligen.split_results(r))
+            want = bytes.fromhex("".join(m["frames"]))
+            if not want.startswith(stream):
+                return "bytes transmitted over the client's lifetime %s are not a prefix of the CRC-correct frames %s" % (stream.hex()[:80], want.hex()[:80])
+            # every complete 'slave .. crc' frame in the stream must carry its own CRC
+            pos = 0
+            for f in m["frames"]:
+                n = len(f) // 2
+                if pos + n <= len(stream) and not self.crc_ok(stream[pos:pos + n].hex()):
+                    return "transmitted frame %s has a wrong CRC" % stream[pos:pos + n].hex()
+                pos += n
+            return None
         if k == "emit_rsp":
             ws = [t[2:] for t in r.split(",") if t.startswith("W:")]
             return None if len(ws) == 1 and self.crc_ok(ws[0]) else "emitted response frame missing or with a wrong CRC: %s" % r[:80]
